@@ -49,7 +49,7 @@ FERMI = [i for i, (f, s) in enumerate(FAMS) if f in ('spinless', 'spinful', 'tJ'
 
 def cases(tier, seed):
     out = []
-    reps = 1 if tier == 'quick' else 4
+    reps = 1 if tier == 'quick' else 8
     for i, (f, s) in enumerate(FAMS):
         out.append({'kind': 'onsite', 'fam': i, 'tier': tier, 'id': f'onsite-{f}-{s}', 'seed': 1})
     for rep in range(reps):
